@@ -195,6 +195,9 @@ def run(ctx, rep):
     r11b(ctx, rep)
     tables.r11c(ctx, rep)
     tables.r11f(ctx, rep)
+    from . import C06
+    C06.r06a_restricted(ctx, rep, "R11p", ["marwood::lex::", "marwood::parse::", "marwood::number::Number::parse"],
+                        "the reader is total", 30)
     r11e(ctx, rep)
     from . import units
     units.r15a(ctx, rep, rule="R11d", scope=("marwood::lex::", "marwood::parse::", "marwood::syntax::"))
